@@ -8,8 +8,10 @@ Usage:  build.py repo <profile>
 import fcntl, glob, os, subprocess, sys, hashlib, json, time
 
 VERIF = os.path.dirname(os.path.dirname(os.path.abspath(__file__)))
-REPO = os.environ.get("VERIF_REPO", "/repo")
-BUILD = os.path.join(VERIF, "build")
+REPO = os.path.realpath(os.environ.get("VERIF_REPO", "/repo"))
+# a different source tree (scratch worktree for triage / seeded changes) gets its own build root
+BUILD = os.path.join(VERIF, "build") if REPO == "/repo" else \
+    os.path.join(VERIF, "build", "alt-" + hashlib.sha1(REPO.encode()).hexdigest()[:10])
 GUARD = "NEOLITH_VERIF"
 
 COMMON = "-g -fno-omit-frame-pointer -DNDEBUG -D%s" % GUARD
